@@ -54,6 +54,9 @@ Do(op, objs) ==
     [] op.op = "set_lower_bound"  -> Replace(objs, op.o, Tab(t.k, [t.lo EXCEPT ![op.c] = op.x], t.up))
     [] op.op = "set_upper_bound"  -> Replace(objs, op.o, Tab(t.k, t.lo, [t.up EXCEPT ![op.c] = op.x]))
     [] op.op = "compute_none"     -> objs                       \* default bounds computer does nothing
+    [] op.op = "compute_sa"       -> Replace(objs, op.o, ComputeSA(t))          \* a registered computer (traces of the repository's tests)
+    [] op.op = "compute_sac"      -> Replace(objs, op.o, ComputeSACached(t))
+    [] op.op = "compute_sam"      -> Replace(objs, op.o, ComputeSAMFix(t, op.x))
     [] op.op = "copy"             -> Append(objs, t)
     [] op.op = "neg"              -> Append(objs, NegT(t))
     [] op.op = "add"              -> Append(objs, AddT(t, objs[op.o2]))
